@@ -26,7 +26,7 @@ BODY = [
     Tpl("g1var", "{g} v", g=("str", NAMES)),
     Tpl("nop", "NOP"),
 ]
-QUICK_DEFS = ("s1|x", "s1|xx", "s1p|xp", "s1p|x-rz", "s2|x2", "s2|x1", "s1|empty", "matrix")
+QUICK_DEFS = ("s1|x", "s1|xx", "s1p|xp", "s1p|x-rz", "s2|x2", "s2|x1", "s1|empty", "s1|dagger", "matrix")
 CHAIN_DEFS, CHAIN_BODY = ("s1|x",), ("g1",)
 QUICK_BODY = ("g1", "g1p", "g2", "g1dagger", "g1var")
 ERR_KINDS = ("ParameterCount", "GateModifiersUnsupported", "CyclicSequenceGateDefinition", "QubitCount", "NonFixedQubitArgument")
